@@ -92,6 +92,11 @@ pub enum Op {
     /// release whose layout is already the current one (1.1.0, 0.16.0, 0.13.1), i.e. a real version upgrade
     Migrate { default_gas: Option<u64>, #[serde(default)] from: u8 },
     Advance { secs: u16 },
+    /// C18 only: an (ungated) native transfer of a bank coin whose denom is literally `cw20:<address of
+    /// token tok>`, i.e. the key the contract also uses for that cw20 token's channel balance. Only the
+    /// governance oracle of C18 is indifferent to such a coin; C11/C12 keep the domain assumption that
+    /// native denoms do not start with "cw20:" and treat this op as a no-op.
+    SendAlias { by: u8, ch: u8, tok: u8, amt: u16 },
 }
 
 #[derive(Clone, Debug, Serialize, Deserialize, PartialEq)]
@@ -176,8 +181,9 @@ fn op(prop: &str, malicious: bool) -> BoxedStrategy<Op> {
     let upd = (who(), 0u8..3).prop_map(|(by, to)| Op::UpdateAdmin { by, to }).boxed();
     let mig = (gas(), prop_oneof![2 => Just(0u8), 3 => 1u8..4]).prop_map(|(default_gas, from)| Op::Migrate { default_gas, from }).boxed();
     let adv = (0u16..3000).prop_map(|secs| Op::Advance { secs }).boxed();
+    let alias = (user(), 0u8..3, 0u8..N_CW20 as u8, any::<u16>()).prop_map(|(by, ch, tok, amt)| Op::SendAlias { by, ch, tok, amt }).boxed();
     match prop {
-        "C18" => prop_oneof![2 => send_n, 8 => send_c, 2 => deliver, 7 => recv, 4 => ack, 2 => timeout, 12 => allow, 4 => upd, 3 => mig, 1 => adv].boxed(),
+        "C18" => prop_oneof![2 => send_n, 2 => alias, 8 => send_c, 2 => deliver, 7 => recv, 4 => ack, 2 => timeout, 12 => allow, 4 => upd, 3 => mig, 1 => adv].boxed(),
         "C11" => prop_oneof![7 => send_n, 7 => send_c, 2 => deliver, 14 => recv, 1 => raw, 5 => ack, 3 => timeout, 1 => allow, 1 => adv].boxed(),
         _ => prop_oneof![7 => send_n, 7 => send_c, 4 => deliver, 12 => recv, 2 => raw, 6 => ack, 3 => timeout, 2 => allow, 1 => upd, 1 => mig, 1 => adv].boxed(),
     }
@@ -579,6 +585,19 @@ pub fn run_case(prop: &str, case: &Case, ctx: &mut CaseCtx) -> Result<(), Violat
                     b.height += 1;
                     b.time = b.time.plus_seconds(s);
                 });
+                Done::Other
+            }
+            Op::SendAlias { by, ch, tok, amt } => {
+                if prop == "C18" {
+                    let by = *by as usize % N_USERS;
+                    let chx = *ch as usize % n_ch;
+                    let denom = format!("cw20:{}", w.cw20[*tok as usize % N_CW20]);
+                    let amount = 1 + *amt as u128;
+                    w.app.sudo(SudoMsg::Bank(BankSudo::Mint { to_address: w.users[by].to_string(), amount: coins(amount, denom.clone()) })).expect("mint");
+                    let tmsg = TransferMsg { channel: chan_id(chx), remote_address: "remote-user-a".into(), timeout: None, memo: None };
+                    let r = try_exec(&mut w.app, &w.users[by].clone(), &w.ics20.clone(), &ExecuteMsg::Transfer(tmsg), &[Coin::new(amount, denom)]);
+                    ctx.count(if r.is_ok() { "op_alias_native_ok" } else { "op_alias_native_fail" });
+                }
                 Done::Other
             }
             Op::SendNative { by, ch, denom, amt, timeout, memo } | Op::SendCw20 { by, ch, tok: denom, amt, timeout, memo } => {
@@ -1240,7 +1259,7 @@ pub struct Ics20Family;
 const ASSUME: &[&str] = &[
     "cw-multi-test 2.0.0 + the harness' sudo shim stand for wasmd/IBC core: sub-messages are dispatched atomically, `reply` runs on failure and its data overrides the acknowledgement; gas limits are recorded, not enforced",
     "IBC core is honest: packets arrive on connected channels with src = the channel's counterparty endpoint, each sent packet gets at most one ack or timeout carrying the original packet bytes; the counterparty's packet contents are arbitrary (C11) or follow the honest voucher model (C12)",
-    "native denoms never start with 'cw20:'",
+    "native denoms never start with 'cw20:' (C11, C12; C18 also sends a bank coin named cw20:<token address>, its governance oracle does not depend on the escrow ledger)",
     "legacy storage images (0.11.1 / 0.12.1 / 0.13.0) are fabricated from frozen layouts; one channel, as the migration requires",
 ];
 
@@ -1253,7 +1272,7 @@ impl Family for Ics20Family {
         vec![
             PropSpec { id: "C11", quick_cases: 6000, thorough_cases: 7000, floor: 150, rule: "case = 1-3 channels, allow list, default gas limit, up to 36 (thorough 90) ops: native and cw20 transfers (amounts up to and above 2^64-1), incoming packets from a malicious counterparty (denom forms: right prefix, bare, wrong port, wrong channel, another channel's prefix, nested, unknown base; amounts around / above the outstanding balance, 0, > 2^64; valid and invalid receivers; raw garbage), deliver / ack success / ack error / timeout per sent packet in any order, payout and refund sub-calls failing on demand (blocked bank recipient, flaky cw20); oracle: real holdings >= sum over channels of reported outstanding per token and paid <= escrowed per (channel, token), foreign / excess packets release nothing, error acks move nothing. Non-trivial: >=1 redeeming packet, >=1 processed refund and (an injected payout/refund failure or one token outstanding on two channels).", assumptions: ASSUME },
             PropSpec { id: "C12", quick_cases: 6000, thorough_cases: 7000, floor: 225, rule: "as C11 with an honest counterparty model (vouchers minted on delivery, only held vouchers returned), governance changes (Allow, UpdateAdmin, migrate) and a 30% upgrade arm starting from a fabricated 0.11.1 / 0.12.1 / 0.13.0 storage image (acked sends booked, in-flight sends held but unbooked, cw20 tokens possibly absent from the allow list) that is migrated first; oracle: outstanding == sent - failed/timed-out - redeemed per (channel, denom) after every op; receive never aborts and always acks; success ack => full payout and balance reduced; error ack => all channel states, holdings and user balances unchanged; every accepted transfer emits exactly one packet with amount == escrowed funds (<= 2^64-1), denom, true sender, receiver, memo, timeout == block time + requested-or-default. Non-trivial: >=1 success ack and >=1 error ack on incoming packets.", assumptions: ASSUME },
-            PropSpec { id: "C18", quick_cases: 7000, thorough_cases: 8000, floor: 140, rule: "case with sparse initial allow list and default gas limit, ops weighted to Allow (new / raise / lower / some->none / none->some), UpdateAdmin, migrate, cw20 transfers and packets that trigger payouts, by governance, former governance and strangers; oracle: allow list / admin change only in successful calls of the pre-call governance address, set only grows, per-token limit never decreases (none = unlimited), default never unset, cw20 transfer accepted only if allowed or default set, every cw20 payout/refund sub-message carries the token's current limit else the default (native: none). Non-trivial: >= 2 of {accepted raise, refused lowering, cw20 payout after a change, attempt by former governance}.", assumptions: ASSUME },
+            PropSpec { id: "C18", quick_cases: 7000, thorough_cases: 8000, floor: 140, rule: "case with sparse initial allow list and default gas limit, ops weighted to Allow (new / raise / lower / some->none / none->some), UpdateAdmin, migrate, cw20 transfers (also after a native coin named cw20:<token> was sent on the channel) and packets that trigger payouts, by governance, former governance and strangers; oracle: allow list / admin change only in successful calls of the pre-call governance address, set only grows, per-token limit never decreases (none = unlimited), default never unset, cw20 transfer accepted only if allowed or default set, every cw20 payout/refund sub-message carries the token's current limit else the default (native: none). Non-trivial: >= 2 of {accepted raise, refused lowering, cw20 payout after a change, attempt by former governance}.", assumptions: ASSUME },
         ]
     }
     fn strategy(&self, prop: &str, tier: Tier) -> BoxedStrategy<Case> {
@@ -1364,7 +1383,7 @@ pub fn decode_case(prop: &str, u: &mut arbitrary::Unstructured) -> Case {
             12 => Op::Timeout { pkt: u.arbitrary().unwrap_or(0), refund_fails: arb_bool(u, 1, 4) },
             13 => Op::Allow { by: d_who(u), tok: arb_below(u, N_CW20) as u8, gas: d_gas(u) },
             14 => if arb_bool(u, 1, 2) { Op::UpdateAdmin { by: d_who(u), to: arb_below(u, 3) as u8 } } else { Op::Migrate { default_gas: d_gas(u), from: arb_below(u, 4) as u8 } },
-            _ => Op::Advance { secs: u.arbitrary::<u16>().unwrap_or(0) % 3000 },
+            _ => if prop == "C18" && arb_bool(u, 1, 2) { Op::SendAlias { by: arb_below(u, N_USERS) as u8, ch: arb_below(u, 3) as u8, tok: arb_below(u, N_CW20) as u8, amt: u.arbitrary().unwrap_or(0) } } else { Op::Advance { secs: u.arbitrary::<u16>().unwrap_or(0) % 3000 } },
         };
         ops.push(op);
     }
